@@ -159,6 +159,12 @@ FORMULAS = [
     ("y ~ 0 + f:g + f:g:h:cu", False),
     ("y ~ h + f:g:h + g:h:cu", False),
     ("y ~ g + g:h:f:z + (0 + f:h | cu)", False),
+    # interactions of categoric factors WITH A STATEFUL TRANSFORM whose margins are missing: the
+    # terms added for full-rankness are copies of components that carry a (fitted) transform; what a
+    # copy does must not reach the component it was copied from (tenth seeded wave, C07_P)
+    ("y ~ center(x) + g:h:center(x)", False),
+    ("y ~ 0 + f:g:scale(z) + h", False),
+    ("y ~ h + f:h:center(x) + g:f:h:standardize(z)", False),
 ]
 ENC_FORMULAS = [8, 9, 10, 11]
 N_PLAIN = 12                # formulas 0..11 need no binding
@@ -166,6 +172,7 @@ BOUND_FORMULAS = [12, 13, 14]
 ARRAY_FORMULAS = [15, 16]   # name caller-owned arrays / lists as transform arguments
 N_BEFORE_ARRAYS = 15        # (the pools written before them keep their formulas: same histories)
 HASH_FORMULAS = list(range(17, 25))   # need extra terms made of >= 2 categoric factors
+XSTATE_FORMULAS = [25, 26, 27]        # extra terms copied from components with a stateful transform
 
 
 def _fn_double(v):
@@ -207,6 +214,7 @@ POOLS = {
     # formulas whose transforms are given caller-owned arrays / lists by name
     "arr": (ARRAY_FORMULAS, [0, 2], [0, 1], ["silent"], False),
     "fullarr": (ARRAY_FORMULAS + [4, 2, 0], [0, 1, 2, 4, 5], [0, 1, 2, 3, 4], MODES, True),
+    "xstate": (XSTATE_FORMULAS + [0], [0, 1, 2], [0, 1, 2, 3], ["silent", "error"], False),
 }
 # pools whose builds go through the caller-owned Environment: the bindings they draw from
 POOL_BINDINGS = {"env": [0, 1, 2], "fullenv": [0, 1, 2, 3]}
@@ -1369,6 +1377,13 @@ def explore(tier, seed, res=None, replay=None):
                                                       arr_len)))
         res.count("random histories (pool 'fullarr': the array-argument formulas mixed with other "
                   "stateful ones, frames with missing values included, length <= %d)" % arr_len, n_arr)
+        n_xs, xs_len = (40, 8) if tier == "quick" else (600, 16)
+        for i in range(n_xs):
+            batches.append(("xstate", random_history(rng_for(seed, "c07", "xstatehist", i), "xstate",
+                                                     xs_len)))
+        res.count("random histories (pool 'xstate': categoric interactions with a stateful transform "
+                  "whose margins are missing, so that full-rankness terms are copied from fitted "
+                  "components, length <= %d)" % xs_len, n_xs)
     histories = [h for _, h in batches]
 
     # ---- run them: one process (quick) / a few long-lived worker processes (thorough)
